@@ -652,6 +652,21 @@ def main():
         if i < n_rot_k and out[0] == 'Ok':
             addk('rot', k_rot(f'k_r_{i}', o, p, a, out[1]), m)
 
+    # D34 (known finding): deterministic replay; KNOWN-FINDING only while it still reproduces.  Other inputs with the
+    # same signature (vertex at longitude -180, origin east of Greenwich) are counted in oracle_exclusions above.
+    for f in ck.findings:
+        if f.get('status') == 'open' and f.get('signature') == 'rot_unwrap_lon_minus180':
+            fo, fp, fa = canon(*f['replay']['o']), canon(*f['replay']['p']), float(f['replay']['angle'])
+            got = impl_rot(fo, fp, fa)
+            ar = math.radians(fa)
+            dx, dy = unwrapped(fo, fp) - fo[0], fp[1] - fo[1]
+            want = (fo[0] + math.cos(ar) * dx - math.sin(ar) * dy, fo[1] + math.sin(ar) * dx + math.cos(ar) * dy)
+            reproduces = got[0] == 'Ok' and (cdiff(got[1][0], want[0]) > 1e-6 or abs(got[1][1] - want[1]) > 1e-6)
+            ck.cov['D34_replay'] = {'o': fo, 'p': fp, 'angle': fa, 'implementation': got[1], 'rotation_of_the_unwrapped_point': want,
+                                    'reproduces': reproduces}
+            if reproduces:
+                ck.known(f)
+
     per_file = max(8, -(-len(lemmas) // 14))
     badk, broken = run_lemmas(ck, 'sphere', lemmas, per_file)
 
